@@ -62,6 +62,23 @@ def h_class(ctx, cls, n, where):
     return _rt_obs(ctx, t)
 
 
+def h_longstr(ctx, n, where):
+    """strings beyond the 8-bit length form: one unconstrained character + concrete filler (length handling of 252/253/254 string forms)"""
+    enc, dec, td, N = CC.lib()
+    c = H.chars(ctx, "s", 1)
+    ctx.assume(CC.ctx_last_code(ctx, "s", 1) != 64)
+    pos = ctx.choice("pos", ["first", "last"])
+    filler = ("x9-" * (n // 3 + 1))[:n - 1]
+    s = (c + filler) if pos == "first" else (filler + c)
+    if where == "val":
+        t = N("iq", {"id": s, "t": "1"}, [N("x")])
+    elif where == "tag":
+        t = N("iq", {"id": "1"}, [N(s, {"a": "b"}), N("x")])
+    else:
+        t = N("iq", {"to": s + "@" + "s.whatsapp.net"}, [N("x")])
+    return _rt_obs(ctx, t)
+
+
 def h_dict(ctx, lo, hi):
     enc, dec, td, N = CC.lib()
     words = list(td.dictionary[3:]) + list(td.secondaryDictionary)
@@ -146,6 +163,9 @@ def cases(tier):
             cs.append(dict(name="class[%s,n=%d,jid]" % (cls, n), fn=h_class, args=(cls, n, "jid"), weight=1 + n / 8.0, timeout_s=300 if q else 1200))
     for lo in range(0, 1280, 160):
         cs.append(dict(name="dict[%d..%d)" % (lo, lo + 160), fn=h_dict, args=(lo, lo + 160), weight=20, timeout_s=600, max_paths=5000, keep_samples=4))
+    for n in ((255, 256, 257, 4096) if q else (255, 256, 257, 4096, 65536, (1 << 20) - 1, 1 << 20, (1 << 20) + 1)):
+        for where in ("val", "tag", "jid"):
+            cs.append(dict(name="longstr[n=%d,%s]" % (n, where), fn=h_longstr, args=(n, where), weight=1 + n / 2000.0, timeout_s=300 if q else 3000))
     for a, c in ((0, 0), (1, 1), (127, 0), (128, 3), (0, 255), (2, 256), (255, 257), (257, 2)):
         cs.append(dict(name="counts[a=%d,c=%d]" % (a, c), fn=h_counts, args=(a, c), weight=1 + (a + c) / 20.0, timeout_s=300))
     for k in ("int8", "int16", "int20", "int24", "int31", "list"):
